@@ -6,6 +6,7 @@ import (
 	"sort"
 	"sync"
 	"testing"
+	"time"
 
 	"github.com/anishathalye/porcupine"
 
@@ -201,6 +202,77 @@ func TestC18Lifetimes(t *testing.T) {
 		c.NonTrivial()
 		if c.Index < 1 {
 			c.Sample(map[string]any{"lifetimes": lifetimes, "ids_issued": total, "last_id": last})
+		}
+	})
+}
+
+// TestC18LifetimesVirtual: the "later manager starts above the IDs of an earlier one" clause on the
+// virtual clock. Inside a bubble no time passes while a manager issues ids, so the only wall clock
+// that separates two lifetimes is what the harness lets pass between them: 1 microsecond per id the
+// earlier manager issued (far less than an open costs on any real machine) plus a PRNG extra. With
+// that much clock every later id must still be above every earlier one.
+func TestC18LifetimesVirtual(t *testing.T) {
+	vf.Run(t, "C18LifetimesVirtual", vf.Opts{Bubble: true, DefaultN: 8}, func(c *vf.Case) {
+		r := c.Rng
+		peers := gen.Peers(r, 2)
+		ds := doubles.NewRecDS()
+		v := gen.SimpleVoucher("VT0", "x")
+		var last uint64
+		lifetimes := 2 + r.Intn(5)
+		total := 0
+		for l := 0; l < lifetimes; l++ {
+			f := newMgrFix(c, peers[0], ds)
+			n := 2 + r.Intn(60)
+			workers := 1 + r.Intn(8)
+			var mu sync.Mutex
+			var ids []uint64
+			var wg sync.WaitGroup
+			for w := 0; w < workers; w++ {
+				wg.Add(1)
+				pull := w%2 == 0
+				go func() {
+					defer wg.Done()
+					for i := 0; i < n/workers+1; i++ {
+						chid, err := f.open(pull, peers[1], v, dummyCid)
+						if err != nil {
+							c.Violation("C18", "open-failed-across-lifetimes", "open in lifetime %d failed: %v", l, err)
+							return
+						}
+						mu.Lock()
+						ids = append(ids, uint64(chid.ID))
+						mu.Unlock()
+					}
+				}()
+			}
+			wg.Wait()
+			settle()
+			newLast := last
+			seen := map[uint64]bool{}
+			for _, id := range ids {
+				if id <= last {
+					c.Violation("C18", "id-not-above-earlier-manager", "lifetime %d issued id %d, an earlier manager had already issued %d (virtual clock: %d us per earlier id had passed)", l, id, last, 1)
+					break
+				}
+				if seen[id] {
+					c.Violation("C18", "duplicate-transfer-id", "lifetime %d issued id %d twice", l, id)
+				}
+				seen[id] = true
+				if id > newLast {
+					newLast = id
+				}
+			}
+			last = newLast
+			total += len(ids)
+			f.stop()
+			settle()
+			time.Sleep(time.Duration(len(ids))*time.Microsecond + time.Duration(r.Intn(3))*time.Duration(r.Intn(1000000))*time.Microsecond)
+		}
+		c.Count("virtual_lifetimes", lifetimes)
+		c.Count("virtual_ids", total)
+		c.Mark("lifetimes=%d ids=%d", lifetimes, total/100)
+		c.NonTrivial()
+		if c.Index < 1 {
+			c.Sample(map[string]any{"clock": "virtual", "lifetimes": lifetimes, "ids_issued": total, "last_id": last})
 		}
 	})
 }
